@@ -94,8 +94,11 @@ def code_gstate(code, globs):
                 if ins.opname in ("STORE_GLOBAL", "DELETE_GLOBAL"):
                     v = True
                     break
-                if ins.opname == "LOAD_GLOBAL" and isinstance(
-                        globs.get(ins.argval), (dict, list, set)):
+                if ins.opname == "LOAD_GLOBAL" and (
+                        isinstance(globs.get(ins.argval), (dict, list, set))
+                        or ins.argval in ("setattr", "delattr")):
+                    # module-level containers, and reflective writes (helpers and
+                    # registries installed on classes / holders shared by threads)
                     v = True
                     break
         except Exception:
